@@ -19,13 +19,14 @@ FUNCTIONS = ["ckl.values.ValueString/ValueInt/ValueDecimal/ValueList/ValueSet/Va
              "ckl.nodes.NodeList/NodeSet/NodeMap/NodeLiteral.evaluate"]
 OUTSIDE = ["leaves that are hashed (set elements, map keys): strings over a 13-character adversarial "
            "alphabet, one-digit ints", "decimal rendering is checked on a concrete ladder only (repr(float) is C code)",
-           "patterns containing //", "dates (not literals)", "strings longer than the bound",
+           "patterns containing // or a backslash; patterns longer than 2 characters", "dates (not literals)", "strings longer than the bound",
            "ints with more than 12 digits in the round-trip cells",
            "sets/maps holding both an int and the equal decimal (see known finding C08:int-decimal-alias)"]
 REACH = {"str", "int", "nest", "order", "dec"}
 
 HASHED = {"set", "mapkey", "setinset", "mapsetval"}   # the leaf is hashed: finite leaf domains
 ADVERSARIAL = "'\\\"<>#/a\n\t=, "
+PATTERN_ALPHABET = "a.\r\n\t #'\"-=1"
 SHAPES = ["bare", "list", "set", "mapkey", "mapval", "listlist", "setinset", "mapsetval"]
 
 
@@ -56,6 +57,9 @@ def cells(tier, seed):
         out.append({"k": "int", "shape": sh})
     for i in range(len(NESTS)):
         out.append({"k": "nest", "i": i})
+    for n in range(1, 3):
+        for sh in ("bare", "list", "mapkey", "mapsetval"):
+            out.append({"k": "pat", "n": n, "shape": sh})
     for what in ("set", "map"):
         out.append({"k": "order", "what": what, "n": b["order_elements"]})
     lad = ladder()
@@ -135,6 +139,18 @@ def run(ctx, cell):
                 ctx.assume(c)
         v = wrap(cell["shape"], vstr(s))
         return roundtrip(ctx, "C08:str:" + cell["shape"], v)
+    if k == "pat":
+        # pattern values: text over an alphabet of valid regex fragments (no "//", no lone backslash)
+        ctx.reach("str")
+        s = ctx.str("s", cell["n"])
+        for ch in list(s):
+            c = False
+            for a in PATTERN_ALPHABET:
+                c = c | (ch == a)
+            ctx.assume(c)
+        import ckl.values as V
+        v = wrap(cell["shape"], V.ValuePattern(str(s)))
+        return roundtrip(ctx, "C08:pat:" + cell["shape"], v)
     if k == "int":
         ctx.reach("int")
         x = digits_int(ctx, "x", 1 if cell["shape"] in HASHED else 12)
